@@ -288,6 +288,8 @@ func C02(p *core.Program, r *core.Report) {
 
 	// ---- O7: what counts as visible (shared with C04-V3): hidden text must not be emitted
 	checkVisibilityRules(p, r, "O7")
+	// ---- O9: words come from text nodes only
+	checkTextViewsAreInnerText(p, r, "O9")
 	// ---- O8: nothing is emitted twice or from outside the gate: whole subtrees are copied into
 	// the output only through the per-node gate of GetOutputNodes (whose decision list conforms),
 	// the reviewed deep copies are Image/Figure elements, and what the image extractor stores there
@@ -415,4 +417,24 @@ func checkFlushBeforeElement(p *core.Program, r *core.Report, rule string) {
 			r.Add(rule, m+": the pending text is appended once", p.Pos(t.Pos()), !inLoop(t.Block()) && len(text) == 1 && neverAfter(t, own[0]), fmt.Sprintf("%d appends of the pending text", len(text)))
 		}
 	}
+}
+
+// checkTextViewsAreInnerText (O9 of C02, the text-view half of C09-W1): apart from Text, which keeps
+// the words the builder collected, every string an Element.GenerateOutput returns when textOnly
+// is set is "" or domutil.InnerText of a tree - the words of text nodes, never an attribute
+// value or anything else put together by the element.
+func checkTextViewsAreInnerText(p *core.Program, r *core.Report, rule string) {
+	n := 0
+	for _, fn := range outputFuncs(p) {
+		for i, o := range outputReturns(p, fn) {
+			if o.typ == "Text" || o.textOnly != 1 {
+				continue
+			}
+			n++
+			ok := o.serializer == "domutil.InnerText" || o.value == `""`
+			r.Add(rule, fmt.Sprintf("%s.GenerateOutput text rendering #%d is the text of a tree", o.typ, i+1), p.Pos(o.ret.Pos()), ok, "returns "+shortVal(o.value))
+		}
+	}
+	r.Floor(rule, 4)
+	_ = n
 }
